@@ -249,4 +249,50 @@ theorem add_member_then_lookup (key probe : Bytes) (constKey : Bool) (l : List I
 example : (addToObject (fun n => n == 0) false [0x6B] sample (.mk 4 false false 0 0 none (some [0x6F]) []) ⟨0, 5⟩).ok = false := by decide
 example : (addToObject (fun _ => false) false [0x6B] sample (.mk 4 false false 0 0 none (some [0x6F]) []) ⟨0, 5⟩).a = ⟨1, 5⟩ := by decide
 
+
+/-! ### replacing a member (`cJSON_ReplaceItemInObject`; used by change_password, C20) -/
+
+/-- Code as repaired (finding F69): when the key copy fails the call fails, the object is untouched and the
+    replacement is still the caller's. -/
+theorem replace_checked_failure_changes_nothing (s : Nat → Bool) (cs : Bool) (key : Bytes) (obj item : Item) (a : A)
+    (hf : s a.next = true) :
+    (replaceInObject s true cs key obj item a).ok = false ∧ (replaceInObject s true cs key obj item a).obj = obj ∧
+    (replaceInObject s true cs key obj item a).orphan.isSome = true := by
+  obtain ⟨k, r, c, vi, vd, vs, nm, kids⟩ := item
+  simp [replaceInObject, optAlloc, hf]
+
+/-- Code as shipped with cJSON 1.7.13 (`checked = false`): the SAME failure is not noticed — the call succeeds and
+    the member that answered to the key is replaced by one WITHOUT a name.  (Witnessed on the real code by the tie
+    before the repair: `R 0 0 6964 …`.) -/
+theorem replace_unchecked_failure_strips_the_name (s : Nat → Bool) (key : Bytes) (obj item : Item) (a : A) (j : Nat)
+    (hf : s a.next = true) (hj : getItem false key obj.kids = some j) :
+    (replaceInObject s false false key obj item a).ok = true ∧
+    ((replaceInObject s false false key obj item a).obj.kids[j]?).bind Item.name = none := by
+  obtain ⟨k, r, c, vi, vd, vs, nm, kids⟩ := item
+  have hlt := getItem_some_lt hj
+  obtain ⟨ok, orf, oc, ovi, ovd, ovs, onm, okids⟩ := obj
+  simp only [Item.kids] at hj hlt
+  simp [replaceInObject, optAlloc, hf, hj, Item.kids, Item.withKids, hlt, Item.name]
+
+/-- … after which the lookup of that key answers NULL although the object had the member: the password of the
+    account is gone (concrete instance; `decide`). -/
+theorem replace_unchecked_failure_loses_the_member :
+    let user := Item.mk 64 false false 0 0 none none [.mk 16 false false 0 0 (some [0x68]) (some [0x70, 0x77]) []]
+    let r := replaceInObject (fun n => n == 0) false false [0x70, 0x77] user (.mk 16 false false 0 0 (some [0x6E]) none []) ⟨0, 1000⟩
+    getItem false [0x70, 0x77] user.kids = some 0 ∧ r.ok = true ∧ getItem false [0x70, 0x77] r.obj.kids = none := by
+  decide
+
+/-- When the key copy succeeds and a member answers, it is replaced IN PLACE (same position, same number of members)
+    by the replacement under the new key. -/
+theorem replace_success_in_place (s : Nat → Bool) (checked : Bool) (key : Bytes) (obj item : Item) (a : A) (j : Nat)
+    (hs : s a.next = false) (hj : getItem false key obj.kids = some j) :
+    (replaceInObject s checked false key obj item a).ok = true ∧
+    (replaceInObject s checked false key obj item a).obj.kids.length = obj.kids.length ∧
+    ((replaceInObject s checked false key obj item a).obj.kids[j]?).bind Item.name = some key := by
+  obtain ⟨k, r, c, vi, vd, vs, nm, kids⟩ := item
+  have hlt := getItem_some_lt hj
+  obtain ⟨ok, orf, oc, ovi, ovd, ovs, onm, okids⟩ := obj
+  simp only [Item.kids] at hj hlt
+  simp [replaceInObject, optAlloc, hs, hj, Item.kids, Item.withKids, hlt, Item.name]
+
 end Cjet.Props.CjsonTree
